@@ -337,8 +337,20 @@ class Run:
         return 999999
 
     # ---- scripted actions
+    def resolve_target(self, a):
+        if a[0] not in ("place", "cancel", "update", "replace"):
+            return None
+        tg = a[1]
+        try:
+            return self.orders[int(tg[1:])] if tg[0] == "o" else self.trades[int(tg[1:])].orders[-1]
+        except (IndexError, KeyError):
+            return None
+
     def do_action(self, sidx, strategy, market, a, state):
         self._last_order = None
+        hb = self.hooks.get("before_action")
+        if hb:
+            hb(self, sidx, market, a, self.resolve_target(a), state)
         r = self._do_action(sidx, strategy, market, a, state)
         h = self.hooks.get("on_action")
         if h:
@@ -535,6 +547,9 @@ class Run:
                         h(run, mb)
 
             fw._process_market_books = pmb
+            hs = self.hooks.get("on_start")
+            if hs:
+                hs(self)
             try:
                 fw.run()
             except Exception as e:  # noqa
@@ -543,6 +558,9 @@ class Run:
                 self.crash_tb = traceback.format_exc()[-1500:]
             self.real_clock_restored = datetime.datetime is datetime.datetime.__mro__[0] and datetime.datetime.__name__ == "datetime"
         finally:
+            he = self.hooks.get("on_end")
+            if he:
+                he(self)
             trade_mod.Trade.create_order_replacement = orig_repl
             for k, v in saved.items():
                 setattr(config, k, v)
